@@ -75,6 +75,34 @@ def r1_nearest_wins(ctx, rep, R='C09.R1'):
                       'nearest enclosing declaration' % (norm(a) if a is not None else 'nothing', pname),
                       key='pass-down:' + attr, func=fi.qualname, where=ctx.where(fi, c))
     visits_every_member(ctx, rep, R)
+    # the getattr on the suite object itself is the ONLY definition of the two locals (a second
+    # definition on some path -- a per-class cache, a look-up on type(suite) -- is a declaration
+    # that is not the nearest one: attributes set on the test object itself would be ignored)
+    for attr in ('level', 'layer'):
+        loc = locs[attr][0]
+        others = []
+        for n in ast.walk(fi.node):
+            if isinstance(n, ast.Name) and n.id == loc and isinstance(n.ctx, (ast.Store, ast.Del)):
+                st = n
+                while not isinstance(st, ast.stmt):
+                    st = st._parent
+                v = getattr(st, 'value', None)
+                plain = isinstance(st, ast.Assign) and len(st.targets) == 1 and st.targets[0] is n
+                if plain and isinstance(v, ast.Call) and dotted(v.func) == 'getattr' and \
+                        len(v.args) == 3 and is_name(v.args[0], ps[0]) and \
+                        isinstance(v.args[1], ast.Constant) and v.args[1].value == attr and \
+                        is_name(v.args[2], locs[attr][1]):
+                    continue
+                if plain and attr == 'layer' and isinstance(v, ast.Call) and \
+                        call_name(v) == 'name_from_layer' and is_name(v.args[0], loc):
+                    continue
+                others.append(st)
+        rep.check(not others, R, 'the %s local has no other definition than getattr(%s, %r, %s)' % (
+            loc, ps[0], attr, locs[attr][1]),
+            'the %s of a test can also come from %s: a declaration on the test object itself (the '
+            'nearest one) would not win on that path' % (attr, [norm(o)[:80] for o in others]),
+            key='single-def:' + attr, func=fi.qualname,
+            where=ctx.where(fi, others[0] if others else fi.node))
     # re-assignments of the layer local only normalise it to a name
     layer_loc = locs['layer'][0]
     for n in ast.walk(fi.node):
